@@ -1,5 +1,6 @@
 """C11 — dataset ingestion crops, rescales, offsets, windows and converts faithfully (real StoG)."""
 import numpy as np
+from .common import exceeds
 import impl
 from pystog import StoG
 import stogcases as sc
@@ -64,7 +65,7 @@ def evaluate(case):
             fails.append(f"after dataset {k}: stored S(Q) row is not the conversion of the stored raw row")
             break
         # Q offset is applied as given, up to the final 0.01-lattice rounding
-        if np.abs(got_r[0] - rec[0]).max(initial=0.0) > 5.0000001e-3:
+        if exceeds(np.abs(got_r[0] - rec[0]).max(initial=0.0), 5.0000001e-3):
             fails.append(f"after dataset {k}: stored Q differs from offset Q by more than the 0.01-lattice rounding")
             break
     lo, hi = case["qmin"], case["qmax"]
